@@ -403,7 +403,7 @@ def b3(F, rep):
                         note = "; %s::MAX %s" % (ety.split("::")[-1], why)
             rep.add("B3", "index-in-bounds:%s#%d" % (short, k), ok, b.where(bb),
                     "index %s has upper bound %s, array length %s%s" % (flow.describe(b, t["ops"][1]), ub, ln if ln is not None else "not a constant", note))
-    rep.floor("B3", "bounds-checks-in-codec", n, 11)
+    rep.floor("B3", "bounds-checks-in-codec", n, 5)
 
 
 def _before(b, bb):
